@@ -269,7 +269,7 @@ open(os.path.join(LEAN, "MsqProofs/Lemmas/ParseCaseDefs.lean"), "w", encoding="u
 NPARTS = 6
 parts = [[] for _ in range(NPARTS)]
 for i, n in enumerate(order): parts[i % NPARTS].append(n)
-HANDSTEP = {"pSplit", "pSelectStmt"}                 # fuel steps proved by hand in ParseCase7.lean (the two-sided split is too slow on them)
+HANDSTEP = {"pSplit", "pSelectStmt", "pUnions"}                 # fuel steps proved by hand in ParseCase7.lean (the two-sided split is too slow on them)
 NEED5 = {"pFunc", "pSingleParen", "pWindowBody"}      # functions whose step needs ParseCase5.lean (hand-written extras)
 for k, names in enumerate(parts):
     out = ["import MsqProofs.Lemmas.ParseCase5" if NEED5 & set(names) else "import MsqProofs.Lemmas.ParseCaseDefs", HEADER % ("fuel step for the mutual block, part %d of %d" % (k + 1, NPARTS))] + OPTS
